@@ -60,23 +60,57 @@ Proof.
 Qed.
 
 Lemma rm_file_spec f p f' b : rm_file f p = (f', b) ->
-  (b = true /\ (exists h, fs_get f p = Some (FFile h)) /\ f' = fs_del f p) \/ (b = false /\ f' = f).
+  (b = true /\ is_unlinkable (fs_get f p) = true /\ f' = fs_del f p) \/ (b = false /\ f' = f).
 Proof.
-  unfold rm_file. destruct (fs_get f p) as [[h|]|] eqn:Hg; intros H; inversion H; subst.
-  - left. split; [reflexivity | split; [exists h; reflexivity | reflexivity]].
-  - right. split; reflexivity.
+  unfold rm_file. destruct (is_unlinkable (fs_get f p)) eqn:Hu; intros H; inversion H; subst.
+  - left. split; [reflexivity | split; reflexivity].
   - right. split; reflexivity.
 Qed.
+
+Lemma is_unlinkable_sub (f f0 : fsys) p :
+  (forall q e, fs_get f q = Some e -> fs_get f0 q = Some e) ->
+  is_unlinkable (fs_get f p) = true -> is_unlinkable (fs_get f0 p) = true.
+Proof.
+  intros Hsub H. destruct (fs_get f p) as [e|] eqn:Hg; [|discriminate H].
+  rewrite (Hsub p e Hg). exact H.
+Qed.
+
+(* stat follows links inside the tree it is given: what it finds in a part of a tree it finds in the whole *)
+Lemma stat_fuel_sub (f f0 : fsys) :
+  (forall q e, fs_get f q = Some e -> fs_get f0 q = Some e) ->
+  forall k p h, stat_fuel k f p = SFile h -> stat_fuel k f0 p = SFile h.
+Proof.
+  intros Hsub. induction k as [|k IH]; intros p h H.
+  - cbn [stat_fuel] in *. destruct (fs_get f p) as [[h'| |t]|] eqn:Hg; try discriminate H.
+    rewrite (Hsub p _ Hg). exact H.
+  - cbn [stat_fuel] in *. destruct (fs_get f p) as [[h'| |t]|] eqn:Hg; try discriminate H.
+    + rewrite (Hsub p _ Hg). exact H.
+    + rewrite (Hsub p _ Hg). apply IH. exact H.
+Qed.
+
+Lemma stat_sub (f f0 : fsys) p h :
+  (forall q e, fs_get f q = Some e -> fs_get f0 q = Some e) -> stat f p = SFile h -> stat f0 p = SFile h.
+Proof. intros Hsub. unfold stat. apply stat_fuel_sub. exact Hsub. Qed.
+
+Lemma stat_fuel_regular k f p h : fs_get f p = Some (FFile h) -> stat_fuel k f p = SFile h.
+Proof. intros H. destruct k; cbn [stat_fuel]; rewrite H; reflexivity. Qed.
+
+Lemma stat_regular f p h : fs_get f p = Some (FFile h) -> stat f p = SFile h.
+Proof. intros H. unfold stat. apply stat_fuel_regular. exact H. Qed.
+
+Lemma stat_of_regular f p h h' : fs_get f p = Some (FFile h) -> stat f p = SFile h' -> h' = h.
+Proof. intros H Hs. rewrite (stat_regular f p h H) in Hs. congruence. Qed.
 
 (* the primitive: a directory is removed only if it is a directory and has no entry below it *)
 Lemma rmdir_if_empty_spec f d f' b : rmdir_if_empty f d = (f', b) ->
   (b = true /\ fs_get f d = Some FDir /\ dir_empty f d = true /\ f' = fs_del f d) \/ (b = false /\ f' = f).
 Proof.
-  unfold rmdir_if_empty. destruct (fs_get f d) as [[h|]|] eqn:Hg.
+  unfold rmdir_if_empty. destruct (fs_get f d) as [[h| |t]|] eqn:Hg.
   - intros H; inversion H; subst. right. split; reflexivity.
   - destruct (dir_empty f d) eqn:He; intros H; inversion H; subst.
     + left. repeat split; reflexivity.
     + right. split; reflexivity.
+  - intros H; inversion H; subst. right. split; reflexivity.
   - intros H; inversion H; subst. right. split; reflexivity.
 Qed.
 
@@ -86,7 +120,7 @@ Qed.
 Record trace_inv (f0 f : fsys) (files dirs : list str) : Prop := mkTI {
   ti_sub : forall p e, fs_get f p = Some e -> fs_get f0 p = Some e;
   ti_vanished : forall p, fs_get f0 p <> None -> fs_get f p = None -> In p files \/ In p dirs;
-  ti_files : forall p, In p files -> (exists h, fs_get f0 p = Some (FFile h)) /\ fs_get f p = None;
+  ti_files : forall p, In p files -> is_unlinkable (fs_get f0 p) = true /\ fs_get f p = None;
   ti_dirs : forall d, In d dirs -> fs_get f0 d = Some FDir /\ fs_get f d = None /\
               forall p, under d p = true -> fs_get f0 p <> None -> In p files \/ In p dirs
 }.
@@ -100,8 +134,8 @@ Proof.
   - intros d [].
 Qed.
 
-Lemma trace_inv_file f0 f files dirs p h :
-  trace_inv f0 f files dirs -> fs_get f p = Some (FFile h) ->
+Lemma trace_inv_file f0 f files dirs p :
+  trace_inv f0 f files dirs -> is_unlinkable (fs_get f p) = true ->
   trace_inv f0 (fs_del f p) (p :: files) dirs.
 Proof.
   intros [Hsub Hvan Hfiles Hdirs] Hg. constructor.
@@ -113,7 +147,7 @@ Proof.
     + apply str_eqb_neq in E. rewrite fs_get_del_other in Hq by exact E.
       destruct (Hvan q H0 Hq) as [H|H]; [left; right; exact H | right; exact H].
   - intros q [<-|Hq].
-    + split; [exists h; apply Hsub; exact Hg | apply fs_get_del_same].
+    + split; [apply (is_unlinkable_sub f f0 p Hsub Hg) | apply fs_get_del_same].
     + destruct (Hfiles q Hq) as [Hh Hn]. split; [exact Hh|].
       destruct (str_eqb q p) eqn:E.
       * apply str_eqb_eq in E. subst. apply fs_get_del_same.
@@ -154,48 +188,63 @@ Qed.
 
 (* ---- remove_deletable_files ---------------------------------------------------------------- *)
 
-(* why a queued file may be removed, judged on the file system before the cleanup *)
-Definition rdf_ok (q : queue) (f0 : fsys) (p : str) : Prop :=
-  exists h0, fs_get f0 p = Some (FFile h0) /\
-    (qfile_get q p = Some None \/ qfile_get q p = Some (Some h0)).
+(* the regenerated branch in front of the hash comparison covers every kind of path *)
+Lemma gen_rdf_hash_checked k : rdf_hash_checked k = true.
+Proof. destruct k; reflexivity. Qed.
 
-Lemma rdf_file_step q f0 f files dirs p f' b :
-  trace_inv f0 f files dirs -> (forall x, In x files -> rdf_ok q f0 x) ->
-  rdf_file q f p = (f', b) ->
+(* why a queued file may be removed, judged on the file system before the cleanup: what was there could be
+   unlinked (a regular file or a symbolic link, the link only), and it is volatile or reading through the path
+   gave exactly the recorded hash *)
+Definition rdf_ok (q : queue) (f0 : fsys) (p : str) : Prop :=
+  is_unlinkable (fs_get f0 p) = true /\
+  (qfile_get q p = Some None \/ exists h0, stat f0 p = SFile h0 /\ qfile_get q p = Some (Some h0)).
+
+Definition fs_sub (f f0 : fsys) : Prop := forall q e, fs_get f q = Some e -> fs_get f0 q = Some e.
+
+Lemma rdf_file_step q f0 fd f files dirs p f' b :
+  trace_inv f0 f files dirs -> (forall x, In x files -> rdf_ok q f0 x) -> fs_sub fd f0 ->
+  rdf_file q fd f p = (f', b) ->
   trace_inv f0 f' (if b then p :: files else files) dirs /\
   (forall x, In x (if b then p :: files else files) -> rdf_ok q f0 x).
 Proof.
-  intros Hinv Hok Hstep. unfold rdf_file in Hstep.
-  destruct (qfile_get q p) as [[h|]|] eqn:Hq.
-  - unfold refreshed in Hstep. destruct (fs_get f p) as [[h'|]|] eqn:Hg.
-    + destruct (h' =? h) eqn:Hh.
-      * apply N.eqb_eq in Hh. subst h'. apply rm_file_spec in Hstep.
-        destruct Hstep as [[-> [_ ->]]|[-> ->]].
-        -- split; [apply trace_inv_file with (h := h); assumption|].
-           intros x [<-|Hx]; [|apply Hok; exact Hx].
-           exists h. split; [apply (ti_sub _ _ _ _ Hinv); exact Hg | right; exact Hq].
-        -- split; assumption.
-      * inversion Hstep; subst. split; assumption.
-    + inversion Hstep; subst. split; assumption.
-    + inversion Hstep; subst. split; assumption.
-  - pose proof Hstep as Hs. apply rm_file_spec in Hs. destruct Hs as [[-> [[h Hg] ->]]|[-> ->]].
-    + split; [apply trace_inv_file with (h := h); assumption|].
-      intros x [<-|Hx]; [|apply Hok; exact Hx].
-      exists h. split; [apply (ti_sub _ _ _ _ Hinv); exact Hg | left; exact Hq].
-    + split; assumption.
+  intros Hinv Hok Hfd Hstep. unfold rdf_file in Hstep.
+  destruct (rdf_decide q fd p) eqn:Hdec.
+  - apply rm_file_spec in Hstep. destruct Hstep as [[-> [Hu ->]]|[-> ->]]; [|split; assumption].
+    split; [apply trace_inv_file; assumption|].
+    intros x [<-|Hx]; [|apply Hok; exact Hx].
+    split; [apply (is_unlinkable_sub f f0 p (ti_sub _ _ _ _ Hinv) Hu)|].
+    unfold rdf_decide in Hdec. destruct (qfile_get q p) as [[h|]|] eqn:Hq; [|left; reflexivity|discriminate Hdec].
+    right. rewrite gen_rdf_hash_checked in Hdec. unfold refreshed in Hdec.
+    destruct (stat fd p) as [|h'|] eqn:Hs; try discriminate Hdec.
+    apply N.eqb_eq in Hdec. subst h'. exists h. split; [apply (stat_sub fd f0 p h Hfd Hs) | reflexivity].
   - inversion Hstep; subst. split; assumption.
 Qed.
 
-Lemma rdf_files_inv q f0 ps : forall f files dirs f' log,
+Lemma rdf_files_gen_inv q f0 fd ps : forall f files dirs f' log,
   trace_inv f0 f files dirs -> (forall x, In x files -> rdf_ok q f0 x) ->
-  rdf_files q ps f files = (f', log) ->
+  (forall x, fd = Some x -> fs_sub x f0) ->
+  rdf_files_gen q fd ps f files = (f', log) ->
   trace_inv f0 f' log dirs /\ (forall x, In x log -> rdf_ok q f0 x).
 Proof.
-  induction ps as [|p ps IH]; intros f files dirs f' log Hinv Hok Hrun.
-  - cbn [rdf_files] in Hrun. inversion Hrun; subst. split; assumption.
-  - cbn [rdf_files] in Hrun. destruct (rdf_file q f p) as [f1 b] eqn:Hstep.
-    destruct (rdf_file_step q f0 f files dirs p f1 b Hinv Hok Hstep) as [Hinv1 Hok1].
-    apply (IH f1 _ dirs f' log Hinv1 Hok1 Hrun).
+  induction ps as [|p ps IH]; intros f files dirs f' log Hinv Hok Hfd Hrun.
+  - cbn [rdf_files_gen] in Hrun. inversion Hrun; subst. split; assumption.
+  - cbn [rdf_files_gen] in Hrun.
+    destruct (rdf_file q (match fd with Some x => x | None => f end) f p) as [f1 b] eqn:Hstep.
+    assert (fs_sub (match fd with Some x => x | None => f end) f0) as Hsub.
+    { destruct fd as [x|]; [apply Hfd; reflexivity | exact (ti_sub _ _ _ _ Hinv)]. }
+    destruct (rdf_file_step q f0 _ f files dirs p f1 b Hinv Hok Hsub Hstep) as [Hinv1 Hok1].
+    apply (IH f1 _ dirs f' log Hinv1 Hok1 Hfd Hrun).
+Qed.
+
+Lemma rdf_files_inv q f0 ps : forall files f' log,
+  (forall x, In x files -> rdf_ok q f0 x) -> trace_inv f0 f0 files [] ->
+  rdf_files q ps f0 files = (f', log) ->
+  trace_inv f0 f' log [] /\ (forall x, In x log -> rdf_ok q f0 x).
+Proof.
+  intros files f' log Hok Hinv Hrun. unfold rdf_files in Hrun.
+  apply (rdf_files_gen_inv q f0 (rdf_mode f0) ps f0 files [] f' log Hinv Hok); [|exact Hrun].
+  intros x Hx. unfold rdf_mode in Hx. destruct rdf_decide_first; [|discriminate Hx].
+  inversion Hx; subst. intros a e H. exact H.
 Qed.
 
 Lemma prune_loop_inv f0 fuel : forall todo f files dirs f' log,
@@ -218,7 +267,7 @@ Proof.
   unfold remove_deletable_files.
   destruct (rdf_files q _ f []) as [f1 flog] eqn:H1.
   destruct (prune_dirs (qdirs q) f1) as [f2 dlog] eqn:H2. cbn [r_fs r_files r_dirs].
-  destruct (rdf_files_inv q f _ f [] [] f1 flog (trace_inv_init f) (fun x (H : In x []) => match H with end) H1)
+  destruct (rdf_files_inv q f _ [] f1 flog (fun x (H : In x []) => match H with end) (trace_inv_init f) H1)
     as [Hinv1 Hok1].
   unfold prune_dirs in H2. pose proof (prune_loop_inv f _ _ f1 flog [] f2 dlog Hinv1 H2) as Hinv2.
   split.
@@ -471,10 +520,13 @@ Definition ever_inv (g : graph) (ever : list str) : Prop :=
   forall n, In n (gnodes g) -> nkind n = KFILE -> is_output_role (nfstate n) = true -> In (nlabel n) ever.
 
 Definition owned_removal (g : graph) (f : fsys) (ever : list str) (unsafe : bool) (p : str) : Prop :=
-  exists n h0, In n (gnodes g) /\ nkind n = KFILE /\ nlabel n = p /\
+  exists n, In n (gnodes g) /\ nkind n = KFILE /\ nlabel n = p /\
     In p ever /\ memN (nfstate n) static_states = false /\ is_output_role (nfstate n) = true /\
-    fs_get f p = Some (FFile h0) /\
-    (memN (nfstate n) volatile_states = true \/ nfhash n = Some h0 \/ unsafe = true).
+    (lkind f p = KRegular \/ lkind f p = KSymlink) /\
+    (memN (nfstate n) volatile_states = true \/ (exists h0, stat f p = SFile h0 /\ nfhash n = Some h0) \/ unsafe = true).
+
+Lemma is_unlinkable_lkind f p : is_unlinkable (fs_get f p) = true -> lkind f p = KRegular \/ lkind f p = KSymlink.
+Proof. unfold lkind. destruct (fs_get f p) as [[h| |t]|]; intros H; try discriminate H; [left | right]; reflexivity. Qed.
 
 Theorem removed_only_owned_finalize c g f ever :
   ever_inv g ever ->
@@ -486,18 +538,20 @@ Proof.
   - rewrite (finalize_unguarded c g f Hg) in Hp. pose proof (finalize_queue_owned g) as Hown.
     destruct (revert_optional g empty_queue) as [g1 q1]. cbv zeta in Hp. cbn [s_files] in Hp.
     destruct (rdf_trace (queue_deleted (attached_tree_labels g1) (dd_deleted (workflow_dd g1)) q1) f) as [_ Hok].
-    destruct (Hok p Hp) as [h0 [Hf Hq]].
+    destruct (Hok p Hp) as [Hf Hq].
     assert (exists v, qfile_get (queue_deleted (attached_tree_labels g1) (dd_deleted (workflow_dd g1)) q1) p = Some v /\
-                      (v = None \/ v = Some h0)) as [v [Hv Hvv]].
-    { destruct Hq as [Hq|Hq]; [exists None | exists (Some h0)]; split; auto. }
+                      (v = None \/ exists h0, v = Some h0 /\ stat f p = SFile h0)) as [v [Hv Hvv]].
+    { destruct Hq as [Hq|[h0 [Hs Hq]]]; [exists None | exists (Some h0)]; split; auto. right. exists h0. auto. }
     destruct (Hown p v Hv) as [n [Hn [Hkind [Hlab Hrole]]]].
     assert (is_output_role (nfstate n) = true) as Hout.
     { unfold is_output_role. destruct Hrole as [[_ H]|[h [_ [_ H]]]]; rewrite H; [apply orb_true_r | reflexivity]. }
-    exists n, h0. split; [exact Hn | split; [exact Hkind | split; [exact Hlab|]]].
+    exists n. split; [exact Hn | split; [exact Hkind | split; [exact Hlab|]]].
     split; [rewrite <- Hlab; apply Hev; assumption|].
-    split; [apply gen_roles_disjoint; exact Hout|]. split; [exact Hout|]. split; [exact Hf|].
+    split; [apply gen_roles_disjoint; exact Hout|]. split; [exact Hout|].
+    split; [apply is_unlinkable_lkind; exact Hf|].
     destruct Hrole as [[_ H]|[h [Hvh [Hh _]]]]; [left; exact H|].
-    right. left. destruct Hvv as [Hvv|Hvv]; congruence.
+    right. left. destruct Hvv as [Hvv|[h0 [Hvv Hs]]]; [congruence|].
+    exists h0. split; [exact Hs | congruence].
 Qed.
 
 (* a removed directory was a directory, and everything that was below it was itself removed by
@@ -750,47 +804,91 @@ Proof.
   apply insert_node_desc_in in H. destruct H as [->|H]; [left; reflexivity | right; apply IH; exact H].
 Qed.
 
+Lemma gen_clean_hash_checked k : clean_hash_checked k = true.
+Proof. destruct k; reflexivity. Qed.
+
+(* `missing` is decided by exists(), which follows links: a dangling link counts as already gone *)
+Lemma gen_clean_missing_follows : clean_missing_follows_links = true.
+Proof. reflexivity. Qed.
+
+(* the part of one iteration after `changed` is known *)
+Definition clean_tail (a : clean_args) (f : fsys) (p : str) (changed : bool) : fsys * cstep :=
+  if a_safe a && changed then (f, CSkip)
+  else if a_commit a then
+    match fs_get f p with
+    | Some FDir => (f, CCrash)
+    | None => (f, CSkip)
+    | Some _ => (fs_del f p, CRemoved)
+    end
+  else (f, CSkip).
+
+Lemma clean_tail_removed a f p c f' : clean_tail a f p c = (f', CRemoved) ->
+  is_unlinkable (fs_get f p) = true /\ f' = fs_del f p /\ a_commit a = true /\ (c = false \/ a_safe a = false).
+Proof.
+  unfold clean_tail. destruct (a_safe a && c) eqn:Hsc; [intros H; inversion H|].
+  destruct (a_commit a) eqn:Hc; [|intros H; inversion H].
+  destruct (fs_get f p) as [[h| |t]|] eqn:Hg; intros H; inversion H; subst;
+    (split; [reflexivity | split; [reflexivity | split; [reflexivity|]]]);
+    (destruct c; [right; destruct (a_safe a); [discriminate Hsc | reflexivity] | left; reflexivity]).
+Qed.
+
+Lemma clean_tail_other a f p c f' st : clean_tail a f p c = (f', st) -> st <> CRemoved -> f' = f.
+Proof.
+  unfold clean_tail. destruct (a_safe a && c); [intros H; inversion H; reflexivity|].
+  destruct (a_commit a); [|intros H; inversion H; reflexivity].
+  destruct (fs_get f p) as [[h| |t]|]; intros H; inversion H; subst; intros Hne; try reflexivity; congruence.
+Qed.
+
+Lemma clean_one_unfold a f n :
+  clean_one a f n =
+  (if (if clean_missing_follows_links
+       then match stat f (nlabel n) with SMissing => true | _ => false end
+       else match fs_get f (nlabel n) with None => true | _ => false end)
+   then (f, CSkip)
+   else match (if memN (nfstate n) volatile_states then Some false else
+               if negb (clean_hash_checked (lkind f (nlabel n))) then Some false else
+                 match stat f (nlabel n) with
+                 | SDir => None
+                 | SFile h => Some (negb (match nfhash n with Some r => h =? r | None => false end))
+                 | SMissing => Some (match nfhash n with Some _ => true | None => false end)
+                 end) with
+        | None => (f, CCrash)
+        | Some changed => clean_tail a f (nlabel n) changed
+        end).
+Proof. reflexivity. Qed.
+
 Lemma clean_one_removed a f n f' :
   clean_one a f n = (f', CRemoved) ->
-  exists h, fs_get f (nlabel n) = Some (FFile h) /\ f' = fs_del f (nlabel n) /\ a_commit a = true /\
-    (memN (nfstate n) volatile_states = true \/ nfhash n = Some h \/ a_safe a = false).
+  is_unlinkable (fs_get f (nlabel n)) = true /\ f' = fs_del f (nlabel n) /\ a_commit a = true /\
+    (memN (nfstate n) volatile_states = true \/ (exists h, stat f (nlabel n) = SFile h /\ nfhash n = Some h) \/
+     a_safe a = false).
 Proof.
-  unfold clean_one. destruct (fs_get f (nlabel n)) as [[h|]|] eqn:Hg.
-  - destruct (memN (nfstate n) volatile_states) eqn:Hv.
-    + rewrite andb_false_r. destruct (a_commit a) eqn:Hc; intros H; inversion H; subst.
-      exists h. repeat split; try reflexivity. left. reflexivity.
-    + destruct (nfhash n) as [r|] eqn:Hh.
-      * destruct (h =? r) eqn:He; cbn [negb].
-        -- rewrite andb_false_r. destruct (a_commit a) eqn:Hc; intros H; inversion H; subst.
-           apply N.eqb_eq in He. subst r. exists h. repeat split; try reflexivity. right. left. reflexivity.
-        -- rewrite andb_true_r. destruct (a_safe a) eqn:Hs; [intros H; inversion H|].
-           destruct (a_commit a) eqn:Hc; intros H; inversion H; subst.
-           exists h. repeat split; try reflexivity. right. right. reflexivity.
-      * cbn [negb]. rewrite andb_true_r. destruct (a_safe a) eqn:Hs; [intros H; inversion H|].
-        destruct (a_commit a) eqn:Hc; intros H; inversion H; subst.
-        exists h. repeat split; try reflexivity. right. right. reflexivity.
-  - destruct (memN (nfstate n) volatile_states); [|intros H; inversion H].
-    rewrite andb_false_r. destruct (a_commit a); intros H; inversion H.
-  - intros H; inversion H.
+  rewrite clean_one_unfold. rewrite gen_clean_missing_follows.
+  destruct (stat f (nlabel n)) as [|h|] eqn:Hs; [intros H; inversion H| |].
+  all: destruct (memN (nfstate n) volatile_states) eqn:Hv.
+  1,3: intros H; apply clean_tail_removed in H; destruct H as [Hu [-> [Hc _]]];
+       (split; [exact Hu | split; [reflexivity | split; [exact Hc | left; reflexivity]]]).
+  all: rewrite gen_clean_hash_checked; cbn [negb].
+  - intros H. apply clean_tail_removed in H. destruct H as [Hu [-> [Hc Hwhy]]].
+    split; [exact Hu | split; [reflexivity | split; [exact Hc|]]].
+    destruct Hwhy as [Hwhy|Hwhy]; [|right; right; exact Hwhy].
+    destruct (nfhash n) as [r|]; [|discriminate Hwhy].
+    apply negb_false_iff in Hwhy. apply N.eqb_eq in Hwhy. subst r. right. left. exists h. split; reflexivity.
+  - intros H. inversion H.
 Qed.
 
 Lemma clean_one_other a f n f' st : clean_one a f n = (f', st) -> st <> CRemoved -> f' = f.
 Proof.
-  unfold clean_one. destruct (fs_get f (nlabel n)) as [[h|]|].
-  - destruct (if memN (nfstate n) volatile_states then _ else _) as [changed|].
-    + destruct (a_safe a && changed); [intros H; inversion H; reflexivity|].
-      destruct (a_commit a); intros H; inversion H; subst; [congruence | reflexivity].
-    + intros H; inversion H; reflexivity.
-  - destruct (if memN (nfstate n) volatile_states then _ else _) as [changed|].
-    + destruct (a_safe a && changed); [intros H; inversion H; reflexivity|].
-      destruct (a_commit a); intros H; inversion H; reflexivity.
-    + intros H; inversion H; reflexivity.
+  rewrite clean_one_unfold.
+  destruct (if clean_missing_follows_links then _ else _); [intros H; inversion H; reflexivity|].
+  destruct (if memN (nfstate n) volatile_states then _ else _) as [changed|].
+  - apply clean_tail_other.
   - intros H; inversion H; reflexivity.
 Qed.
 
 Definition clean_ok (a : clean_args) (f0 : fsys) (sel : list node) (p : str) : Prop :=
-  exists n h0, In n sel /\ nlabel n = p /\ a_commit a = true /\ fs_get f0 p = Some (FFile h0) /\
-    (memN (nfstate n) volatile_states = true \/ nfhash n = Some h0 \/ a_safe a = false).
+  exists n, In n sel /\ nlabel n = p /\ a_commit a = true /\ is_unlinkable (fs_get f0 p) = true /\
+    (memN (nfstate n) volatile_states = true \/ (exists h0, stat f0 p = SFile h0 /\ nfhash n = Some h0) \/ a_safe a = false).
 
 Lemma clean_loop_inv a f0 sel ns : forall f removed f' removed' crash,
   (forall n, In n ns -> In n sel) ->
@@ -805,11 +903,13 @@ Proof.
     destruct st.
     + assert (f1 = f) as -> by (apply (clean_one_other _ _ _ _ _ Hone); discriminate).
       apply (IH _ _ _ _ _ Hsel' Hinv Hok Hrun).
-    + destruct (clean_one_removed _ _ _ _ Hone) as [h [Hg [-> [Hc Hwhy]]]].
-      apply (IH _ _ f' removed' crash Hsel' (trace_inv_file _ _ _ _ _ h Hinv Hg)); [|exact Hrun].
+    + destruct (clean_one_removed _ _ _ _ Hone) as [Hg [-> [Hc Hwhy]]].
+      apply (IH _ _ f' removed' crash Hsel' (trace_inv_file _ _ _ _ _ Hinv Hg)); [|exact Hrun].
       intros x [<-|Hx]; [|apply Hok; exact Hx].
-      exists n, h. split; [apply Hsel; left; reflexivity | split; [reflexivity | split; [exact Hc|]]].
-      split; [apply (ti_sub _ _ _ _ Hinv); exact Hg | exact Hwhy].
+      exists n. split; [apply Hsel; left; reflexivity | split; [reflexivity | split; [exact Hc|]]].
+      split; [apply (is_unlinkable_sub f f0 _ (ti_sub _ _ _ _ Hinv) Hg)|].
+      destruct Hwhy as [H|[[h [Hs Hh]]|H]]; [left; exact H | | right; right; exact H].
+      right. left. exists h. split; [apply (stat_sub f f0 _ h (ti_sub _ _ _ _ Hinv) Hs) | exact Hh].
     + assert (f1 = f) as -> by (apply (clean_one_other _ _ _ _ _ Hone); discriminate).
       inversion Hrun; subst. split; assumption.
 Qed.
@@ -868,15 +968,16 @@ Theorem removed_only_owned_clean g a trs f ever :
   forall p, In p (k_files (clean_tool g a trs f)) -> owned_removal g f ever (negb (a_safe a)) p.
 Proof.
   intros Hev p Hp. destruct (clean_tool_trace g a trs f) as [_ Hok].
-  destruct (Hok p Hp) as [n [h0 [Hsel [Hlab [_ [Hf Hwhy]]]]]].
+  destruct (Hok p Hp) as [n [Hsel [Hlab [_ [Hf Hwhy]]]]].
   unfold clean_selected in Hsel. apply filter_In in Hsel. destruct Hsel as [Hn Hcond].
   apply andb_true_iff in Hcond. destruct Hcond as [Hcond _].
   apply andb_true_iff in Hcond. destruct Hcond as [Hcond Hstate].
   apply andb_true_iff in Hcond. destruct Hcond as [Hkind _]. apply N.eqb_eq in Hkind.
   pose proof (gen_clean_select _ Hstate) as Hout.
-  exists n, h0. split; [exact Hn | split; [exact Hkind | split; [exact Hlab|]]].
+  exists n. split; [exact Hn | split; [exact Hkind | split; [exact Hlab|]]].
   split; [rewrite <- Hlab; apply Hev; assumption|].
-  split; [apply gen_roles_disjoint; exact Hout|]. split; [exact Hout|]. split; [exact Hf|].
+  split; [apply gen_roles_disjoint; exact Hout|]. split; [exact Hout|].
+  split; [apply is_unlinkable_lkind; exact Hf|].
   destruct Hwhy as [H|[H|H]]; [left; exact H | right; left; exact H | right; right; rewrite H; reflexivity].
 Qed.
 
@@ -889,7 +990,7 @@ Theorem clean_without_commit g a trs f : a_commit a = false -> k_files (clean_to
 Proof.
   intros Hc. destruct (clean_tool_trace g a trs f) as [_ Hok].
   destruct (k_files (clean_tool g a trs f)) as [|x l] eqn:E; [reflexivity|].
-  destruct (Hok x (or_introl eq_refl)) as [n [h0 [_ [_ [Hcommit _]]]]]. congruence.
+  destruct (Hok x (or_introl eq_refl)) as [n [_ [_ [Hcommit _]]]]. congruence.
 Qed.
 
 (* ---- C07: orphans are removed from graph and disk ------------------------------------------ *)
@@ -1032,11 +1133,9 @@ Proof.
 Qed.
 
 (* remove_deletable_files really removes a queued, unmodified file *)
-Lemma rdf_file_shape q f x : fst (rdf_file q f x) = f \/ fst (rdf_file q f x) = fs_del f x.
+Lemma rdf_file_shape q fd f x : fst (rdf_file q fd f x) = f \/ fst (rdf_file q fd f x) = fs_del f x.
 Proof.
-  unfold rdf_file, rm_file, refreshed.
-  destruct (qfile_get q x) as [[h|]|]; destruct (fs_get f x) as [[h'|]|]; cbn [fst]; auto.
-  destruct (h' =? h); cbn [fst]; auto.
+  unfold rdf_file, rm_file. destruct (rdf_decide q fd x); [destruct (is_unlinkable (fs_get f x))|]; cbn [fst]; auto.
 Qed.
 
 Lemma fs_del_none_stays f x p : fs_get f p = None -> fs_get (fs_del f x) p = None.
@@ -1046,32 +1145,52 @@ Proof.
   - apply str_eqb_neq in E. rewrite fs_get_del_other by exact E. exact H.
 Qed.
 
-Lemma rdf_files_none_stays q p ps : forall f log,
-  fs_get f p = None -> fs_get (fst (rdf_files q ps f log)) p = None.
+Lemma rdf_files_gen_none_stays q fd p ps : forall f log,
+  fs_get f p = None -> fs_get (fst (rdf_files_gen q fd ps f log)) p = None.
 Proof.
   induction ps as [|x ps IH]; intros f log H; [exact H|].
-  cbn [rdf_files]. destruct (rdf_file q f x) as [f1 b] eqn:E. apply IH.
-  pose proof (rdf_file_shape q f x) as Hs. rewrite E in Hs. cbn [fst] in Hs.
+  cbn [rdf_files_gen]. destruct (rdf_file q _ f x) as [f1 b] eqn:E. apply IH.
+  pose proof (rdf_file_shape q (match fd with Some y => y | None => f end) f x) as Hs. rewrite E in Hs. cbn [fst] in Hs.
   destruct Hs as [->| ->]; [exact H | apply fs_del_none_stays; exact H].
 Qed.
 
-Lemma rdf_files_removes q p v h ps : forall f log,
+(* a queued regular file that holds the recorded content (or is volatile) is always selected *)
+Lemma rdf_decide_regular q fd p v h :
+  qfile_get q p = Some v -> (v = None \/ v = Some h) -> fs_get fd p = Some (FFile h) -> rdf_decide q fd p = true.
+Proof.
+  intros Hq Hv Hg. unfold rdf_decide. rewrite Hq. destruct Hv as [-> | ->]; [reflexivity|].
+  destruct (rdf_hash_checked (lkind fd p)); [|reflexivity].
+  unfold refreshed. rewrite (stat_regular _ _ _ Hg). apply N.eqb_refl.
+Qed.
+
+Lemma rdf_files_gen_removes q fd p v h ps : forall f log,
+  qfile_get q p = Some v -> (v = None \/ v = Some h) ->
+  In p ps -> fs_get f p = Some (FFile h) -> (forall x, fd = Some x -> fs_get x p = Some (FFile h)) ->
+  fs_get (fst (rdf_files_gen q fd ps f log)) p = None.
+Proof.
+  induction ps as [|x ps IH]; intros f log Hq Hv Hin Hg Hfd; [destruct Hin|].
+  cbn [rdf_files_gen]. destruct (rdf_file q _ f x) as [f1 b] eqn:E.
+  destruct (str_eqb x p) eqn:Exp.
+  - apply str_eqb_eq in Exp. subst x. apply rdf_files_gen_none_stays.
+    unfold rdf_file in E. rewrite (rdf_decide_regular q _ p v h Hq Hv) in E.
+    + unfold rm_file in E. rewrite Hg in E. cbn [is_unlinkable] in E. inversion E. apply fs_get_del_same.
+    + destruct fd as [y|]; [apply Hfd; reflexivity | exact Hg].
+  - apply str_eqb_neq in Exp. destruct Hin as [Hin|Hin]; [contradiction|].
+    apply IH; [exact Hq | exact Hv | exact Hin | | exact Hfd].
+    pose proof (rdf_file_shape q (match fd with Some y => y | None => f end) f x) as Hs. rewrite E in Hs. cbn [fst] in Hs.
+    destruct Hs as [->| ->]; [exact Hg | rewrite fs_get_del_other by congruence; exact Hg].
+Qed.
+
+Lemma rdf_files_none_stays q p ps f log : fs_get f p = None -> fs_get (fst (rdf_files q ps f log)) p = None.
+Proof. unfold rdf_files. apply rdf_files_gen_none_stays. Qed.
+
+Lemma rdf_files_removes q p v h ps f log :
   qfile_get q p = Some v -> (v = None \/ v = Some h) ->
   In p ps -> fs_get f p = Some (FFile h) ->
   fs_get (fst (rdf_files q ps f log)) p = None.
 Proof.
-  induction ps as [|x ps IH]; intros f log Hq Hv Hin Hg; [destruct Hin|].
-  cbn [rdf_files]. destruct (rdf_file q f x) as [f1 b] eqn:E.
-  destruct (str_eqb x p) eqn:Exp.
-  - apply str_eqb_eq in Exp. subst x. apply rdf_files_none_stays.
-    unfold rdf_file in E. rewrite Hq in E. unfold rm_file, refreshed in E. rewrite Hg in E.
-    destruct Hv as [-> | ->].
-    + inversion E. apply fs_get_del_same.
-    + rewrite N.eqb_refl in E. inversion E. apply fs_get_del_same.
-  - apply str_eqb_neq in Exp. destruct Hin as [Hin|Hin]; [contradiction|].
-    apply IH; [exact Hq | exact Hv | exact Hin|].
-    pose proof (rdf_file_shape q f x) as Hs. rewrite E in Hs. cbn [fst] in Hs.
-    destruct Hs as [->| ->]; [exact Hg | rewrite fs_get_del_other by congruence; exact Hg].
+  intros Hq Hv Hin Hg. unfold rdf_files. apply (rdf_files_gen_removes q _ p v h); try assumption.
+  intros x Hx. unfold rdf_mode in Hx. destruct rdf_decide_first; [|discriminate Hx]. inversion Hx; subst. exact Hg.
 Qed.
 
 Lemma in_dedup x l : In x l -> In x (dedup l).
